@@ -310,6 +310,28 @@ func TestCheck(t *testing.T) {
 			if bad != "" {
 				run.Violation("state-root-in-header-twin-diverged", fmt.Sprintf("h%d/srih", hidx), fmt.Sprintf("height %d: %s", at, bad), map[string]any{"history": hidx, "height": at})
 			}
+			// the StateRootInHeader stream on its own small farm (restarts, flushes
+			// between header and block: the header check needs the local state root)
+			h2.Txs, h2.Extras = h.Txs, h.Extras
+			var wg2 sync.WaitGroup
+			for ri, rc := range []repCfg{cfgs[0], cfgs[3], cfgs[4], cfgs[6]} {
+				id := fmt.Sprintf("h%d/srih/%s", hidx, rc.name)
+				if !run.Want(id) {
+					continue
+				}
+				wg2.Add(1)
+				go func() {
+					defer wg2.Done()
+					out := feed(t, run, h2, rc, uint64(hidx)*1000+uint64(ri)+7000, false)
+					mu.Lock()
+					defer mu.Unlock()
+					run.Case(fmt.Sprint(hidx, h.PName, "srih", rc.name), rich)
+					if out != nil {
+						run.Violation("srih:"+out.sig+":"+rc.restarts, id, out.detail, map[string]any{"history": hidx, "replica": rc.name, "height": out.height, "schedule": out.log})
+					}
+				}()
+			}
+			wg2.Wait()
 			h2.P.Close()
 		}
 		h.P.Close()
